@@ -599,6 +599,9 @@ func (m *Machine) tokenReq(b int, path, field, tok string) harness.Req {
 func (m *Machine) codeFields(op Op, secret string) map[string]string {
 	if op.F {
 		f := map[string]string{"recovery_code": secret}
+		if secret == "" {
+			return f // an empty recovery field does not decide anything: keep the code field empty too
+		}
 		// Both fields at once: the recovery code decides (it is looked at first), the
 		// code field rides along. op.X names what it holds: the account's current TOTP
 		// code or the SMS code the session holds.
